@@ -521,6 +521,7 @@ func ruleLevelSlots(r *Run, p *Prog, rule, tname, meth, suffix string, levelPara
 	if !r.Anchor(f != nil, rule, tname+"."+meth) {
 		return
 	}
+	f = p.View(f, "", nil)
 	lc := levelConsts(p)
 	byVal := map[int64]string{}
 	for n, v := range lc {
@@ -533,6 +534,9 @@ func ruleLevelSlots(r *Run, p *Prog, rule, tname, meth, suffix string, levelPara
 	}
 	arms := map[string]bool{}
 	for i, pa := range paths {
+		if pa.Infeasible() {
+			continue
+		}
 		var eq *int64
 		var nonNil, isNilF []string
 		for _, c := range pa.Cmps() {
